@@ -95,11 +95,11 @@ def placeholderName (a : FmtAttr) (p : Placeholder) : Option Name :=
   match p.arg with
   | .named n =>
     match a.args.find? (fun x => x.alias = some n) with
-    | some x => x.ident
+    | some x => x.ident.map unraw
     | none => some n
   | .pos i =>
     match a.args[i]? with
-    | some x => if x.alias.isNone then x.ident else none
+    | some x => if x.alias.isNone then x.ident.map unraw else none
     | none => none
 
 /-- `_<digits>` parsed as `usize` (`strip_prefix('_')` then `str::parse`). -/
